@@ -1495,6 +1495,15 @@ pub fn run_net(prog: &NetProgram, opts: &RunOpts) -> NetResult {
     res
 }
 
+/// what the waiting thread of the C20 fault does: it asks for a simulation of its own (and has to wait until the running one
+/// is gone); the moment it gets it, it notes how many values of this process are still alive
+pub fn wait_for_sim_and_count_live(seen: &std::sync::atomic::AtomicI64) {
+    let sim = Sim::new(());
+    seen.store(crate::bodies::LIVE_TOKENS.load(std::sync::atomic::Ordering::SeqCst), std::sync::atomic::Ordering::SeqCst);
+    let rt = Builder::seeded(5).quiet().build(sim.freeze());
+    drop(rt);
+}
+
 /// what the intruding thread of the C04 fault does: a net simulation of its own, built and dropped
 pub fn build_and_drop_empty_sim() {
     let sim = Sim::new(());
